@@ -119,6 +119,85 @@ theorem lastHasMsb_encodeOfsAux (m : Nat) : ∀ (acc : Bytes), acc ≠ [] →
       | nil => exact absurd rfl hacc
       | cons a r => simp [lastHasMsb]
 
+
+/-! ### header and distance code, as whole-function facts -/
+
+theorem takeMsb_encodeObjHeader (ty size : Nat) (rest : Bytes) (hty : ty < 8) :
+    takeMsb (encodeObjHeader ty size ++ rest) = some (encodeObjHeader ty size, rest) := by
+  have hc : ty * 2 ^ Gen.Pack.hdrTypeShift + size % (Gen.Pack.hdrLowMask + 1) < 128 := by
+    simp only [Gen.Pack.hdrTypeShift, Gen.Pack.hdrLowMask]; omega
+  exact takeMsb_encVarTail _ _ _ hc
+
+theorem decodeObjHeaderRaw_encodeObjHeader (ty size : Nat) (hty : ty < 8) :
+    decodeObjHeaderRaw (encodeObjHeader ty size) = some (ty, size) := by
+  have hc : ty * 2 ^ Gen.Pack.hdrTypeShift + size % (Gen.Pack.hdrLowMask + 1) < 128 := by
+    simp only [Gen.Pack.hdrTypeShift, Gen.Pack.hdrLowMask]; omega
+  unfold encodeObjHeader
+  rw [encVarTail]
+  split
+  · rename_i h0
+    have h1 : (UInt8.ofNat (ty * 2 ^ Gen.Pack.hdrTypeShift + size % (Gen.Pack.hdrLowMask + 1))).toNat
+        = ty * 16 + size % 16 := u8_toNat_ofNat (by omega)
+    simp only [decodeObjHeaderRaw, h1, sizeTail, Gen.Pack.dhTypeShift, Gen.Pack.dhTypeMask, Gen.Pack.dhLowMask]
+    simp only [Gen.Pack.hdrLowShift] at h0
+    have e1 : (ty * 16 + size % 16) / 2 ^ 4 % (7 + 1) = ty := by omega
+    have e2 : (ty * 16 + size % 16) % (15 + 1) + 0 = size := by omega
+    rw [e1, e2]
+  · rename_i h0
+    have h1 : (UInt8.ofNat (ty * 2 ^ Gen.Pack.hdrTypeShift + size % (Gen.Pack.hdrLowMask + 1)
+        + Gen.Pack.hdrContBit)).toNat = ty * 16 + size % 16 + 128 :=
+      u8_toNat_ofNat (by simp only [Gen.Pack.hdrContBit]; omega)
+    simp only [decodeObjHeaderRaw, h1]
+    rw [sizeTail_encVarTail _ _ _ (by simp only [Gen.Pack.hdrGroupMask]; omega)]
+    simp only [Gen.Pack.dhTypeShift, Gen.Pack.dhTypeMask, Gen.Pack.dhLowMask, Gen.Pack.dhLowShift,
+      Gen.Pack.hdrGroupMask, Gen.Pack.hdrGroupShift, Gen.Pack.hdrLowShift]
+    have e1 : (ty * 16 + size % 16 + 128) / 2 ^ 4 % (7 + 1) = ty := by omega
+    have e2 : (ty * 16 + size % 16 + 128) % (15 + 1)
+        + (size / 2 ^ 4 % (127 + 1) + 128 * (size / 2 ^ 4 / 2 ^ 7)) * 2 ^ 4 = size := by omega
+    rw [e1, e2]
+
+theorem encVarTail_ne_nil (c n : Nat) : encVarTail c n ≠ [] := by
+  rw [encVarTail]; split <;> simp
+
+theorem encodeObjHeader_ne_nil (ty size : Nat) : encodeObjHeader ty size ≠ [] := encVarTail_ne_nil _ _
+
+theorem takeMsb_encodeOfs (n : Nat) (rest : Bytes) :
+    takeMsb (encodeOfs n ++ rest) = some (encodeOfs n, rest) := by
+  unfold encodeOfs
+  have hb : (UInt8.ofNat (n % (Gen.Pack.ofsLowMask + 1))).toNat = n % 128 :=
+    u8_toNat_ofNat (by simp only [Gen.Pack.ofsLowMask]; omega)
+  exact takeMsb_encodeOfsAux _ _ _ (by simp [takeMsb, hb, Gen.Pack.msbBit]; omega)
+
+theorem decodeOfsRaw_encodeOfs (n : Nat) (hn : 0 < n) : decodeOfsRaw (encodeOfs n) = .ok n := by
+  unfold encodeOfs
+  have hb : (UInt8.ofNat (n % (Gen.Pack.ofsLowMask + 1))).toNat = n % 128 :=
+    u8_toNat_ofNat (by simp only [Gen.Pack.ofsLowMask]; omega)
+  have hq : n / 2 ^ Gen.Pack.ofsLowShift = n / 128 := rfl
+  rw [hq]
+  by_cases h0 : n / 128 = 0
+  · rw [h0, encodeOfsAux]
+    simp only [if_true, decodeOfsRaw, lastHasMsb, hb, Gen.Pack.doContBit, decodeOfsAux, Gen.Pack.doLowMask,
+      Gen.Pack.doZero]
+    have e : n % 128 % (127 + 1) = n := by omega
+    have e2 : ¬ n % 128 ≥ 128 := by omega
+    simp [e, e2]
+    omega
+  · obtain ⟨b', r', he, hd⟩ := decodeOfsAux_encodeOfsAux (n / 128) (UInt8.ofNat (n % (Gen.Pack.ofsLowMask + 1))) []
+      (by omega)
+    have hl := lastHasMsb_encodeOfsAux (n / 128) [UInt8.ofNat (n % (Gen.Pack.ofsLowMask + 1))] (by simp)
+    rw [he] at hl ⊢
+    simp only [decodeOfsRaw, hl, lastHasMsb, hb, Gen.Pack.doContBit, Gen.Pack.doLowMask]
+    have e2 : ¬ n % 128 ≥ 128 := by omega
+    simp only [e2, decide_false, Bool.false_eq_true, if_false]
+    have hd' : decodeOfsAux (b'.toNat % (127 + 1)) r' = n := by
+      have : b'.toNat % (127 + 1) = b'.toNat % 128 := rfl
+      rw [this, hd]
+      simp only [decodeOfsAux, hb, Gen.Pack.doBias, Gen.Pack.doGroupShift, Gen.Pack.doGroupMask]
+      omega
+    simp only [hd', Gen.Pack.doZero]
+    have : ¬ n = 0 := by omega
+    simp [this]
+
 /-! ### trailer tracking -/
 
 theorem feed_invariant (hs : Nat) (hhs : 0 < hs) (s : TrailerState) (P data : Bytes)
@@ -147,5 +226,337 @@ theorem feed_invariant (hs : Nat) (hhs : 0 < hs) (s : TrailerState) (P data : By
           ← List.append_assoc, h1]
       · simp only [List.length_append, List.length_drop]
         omega
+
+/-! ### one entry: what the writer emits parses back to what it meant -/
+
+/-- zlib as the theorems see it. -/
+def ZlibOk (deflate : Bytes → Bytes) (inflate : Bytes → Option (Bytes × Bytes)) : Prop :=
+  ∀ x rest, inflate (deflate x ++ rest) = some (x, rest)
+
+theorem entryBytes_ne_nil (deflate : Bytes → Bytes) (off : Nat) (ents : List WEntry) (r : Rec) :
+    entryBytes deflate off ents r ≠ [] := by
+  unfold entryBytes
+  have := fun t s => encodeObjHeader_ne_nil t s
+  split
+  · intro h; exact this _ _ (List.append_eq_nil_iff.mp h).1
+  · split
+    · intro h; exact this _ _ (List.append_eq_nil_iff.mp (List.append_eq_nil_iff.mp h).1).1
+    · intro h; exact this _ _ (List.append_eq_nil_iff.mp (List.append_eq_nil_iff.mp h).1).1
+
+theorem lookupOff_lt {ents : List WEntry} {b : Bytes} {off o : Nat} (hinv : ∀ e ∈ ents, e.offset < off)
+    (h : lookupOff ents b = some o) : o < off := by
+  unfold lookupOff at h
+  split at h
+  · rename_i e he
+    cases h
+    exact hinv e (List.mem_of_find?_eq_some he)
+  · cases h
+
+theorem parseEntry_entryBytes (deflate : Bytes → Bytes) (inflate : Bytes → Option (Bytes × Bytes))
+    (hz : ZlibOk deflate inflate) (hs off : Nat) (ents : List WEntry) (r : Rec) (rest : Bytes)
+    (hwf : wfRec hs r = true) (hinv : ∀ e ∈ ents, e.offset < off) (hrest : rest ≠ []) :
+    parseEntry inflate hs (entryBytes deflate off ents r ++ rest) = .ok (entryOf off ents r, rest) := by
+  have hne : rest.isEmpty = false := by cases rest with | nil => exact absurd rfl hrest | cons _ _ => rfl
+  unfold entryBytes entryOf wfRec at *
+  cases hb : r.base with
+  | none =>
+    rw [hb] at hwf
+    simp only at hwf ⊢
+    have hw := of_decide_eq_true hwf
+    unfold parseEntry
+    rw [List.append_assoc, takeMsb_encodeObjHeader _ _ _ hw.2.2]
+    simp only [decodeObjHeaderRaw_encodeObjHeader _ _ hw.2.2]
+    unfold parseBase
+    simp only [hw.1, hw.2.1, if_false, hz r.data rest, hne, Bool.false_eq_true, ne_eq, not_true_eq_false]
+  | some b =>
+    rw [hb] at hwf
+    simp only at hwf ⊢
+    have hbl : b.length = hs := of_decide_eq_true hwf
+    cases hl : lookupOff ents b with
+    | some baseOff =>
+      have hlt := lookupOff_lt hinv hl
+      simp only
+      unfold parseEntry
+      rw [List.append_assoc, List.append_assoc,
+        takeMsb_encodeObjHeader _ _ _ (by simp only [Gen.Pack.ofsDelta]; omega)]
+      simp only [decodeObjHeaderRaw_encodeObjHeader _ _ (show Gen.Pack.ofsDelta < 8 by decide)]
+      unfold parseBase
+      simp only [if_true, takeMsb_encodeOfs, decodeOfsRaw_encodeOfs _ (show 0 < off - baseOff by omega),
+        hz r.data rest, hne, Bool.false_eq_true, if_false, ne_eq, not_true_eq_false]
+    | none =>
+      simp only
+      unfold parseEntry
+      rw [List.append_assoc, List.append_assoc,
+        takeMsb_encodeObjHeader _ _ _ (by simp only [Gen.Pack.refDelta]; omega)]
+      simp only [decodeObjHeaderRaw_encodeObjHeader _ _ (show Gen.Pack.refDelta < 8 by decide)]
+      unfold parseBase
+      have h67 : ¬ Gen.Pack.refDelta = Gen.Pack.ofsDelta := by decide
+      have hlen : ¬ (b ++ (deflate r.data ++ rest)).length < hs := by simp; omega
+      have ht : (b ++ (deflate r.data ++ rest)).take hs = b := by
+        rw [← hbl]; simp
+      have hd : (b ++ (deflate r.data ++ rest)).drop hs = deflate r.data ++ rest := by
+        rw [← hbl]; simp
+      simp only [h67, if_false, if_true, hlen, ht, hd, hz r.data rest, hne, Bool.false_eq_true, ne_eq,
+        not_true_eq_false]
+
+/-! ### the whole record loop -/
+
+theorem writeRecs_fst_cons (deflate : Bytes → Bytes) (off : Nat) (ents : List WEntry) (r : Rec) (rs : List Rec) :
+    (writeRecs deflate off ents (r :: rs)).1 = entryBytes deflate off ents r
+      ++ (writeRecs deflate (off + (entryBytes deflate off ents r).length)
+            (⟨r.name, off, entryBytes deflate off ents r⟩ :: ents) rs).1 := rfl
+
+theorem writeRecs_snd_cons (deflate : Bytes → Bytes) (off : Nat) (ents : List WEntry) (r : Rec) (rs : List Rec) :
+    (writeRecs deflate off ents (r :: rs)).2
+      = (writeRecs deflate (off + (entryBytes deflate off ents r).length)
+            (⟨r.name, off, entryBytes deflate off ents r⟩ :: ents) rs).2 := rfl
+
+/-- Sequential parse of what the record loop wrote, followed by a non-empty trailer. -/
+theorem parseEntries_writeRecs (deflate : Bytes → Bytes) (inflate : Bytes → Option (Bytes × Bytes))
+    (hz : ZlibOk deflate inflate) (hs : Nat) (trailer : Bytes) (htr : trailer ≠ []) :
+    ∀ (recs : List Rec) (off total : Nat) (ents : List WEntry),
+      (∀ r ∈ recs, wfRec hs r = true) → (∀ e ∈ ents, e.offset < off) →
+      total = off + ((writeRecs deflate off ents recs).1 ++ trailer).length →
+      parseEntries inflate hs total recs.length ((writeRecs deflate off ents recs).1 ++ trailer)
+        = .ok (layoutRecs deflate off ents recs, trailer) := by
+  intro recs
+  induction recs with
+  | nil => intro off total ents _ _ _; simp [parseEntries, writeRecs, layoutRecs]
+  | cons r rs ih =>
+    intro off total ents hwf hinv htot
+    have hb := entryBytes_ne_nil deflate off ents r
+    rw [writeRecs_fst_cons] at htot ⊢
+    simp only [List.length_cons, parseEntries, layoutRecs]
+    rw [List.append_assoc]
+    have hrest : (writeRecs deflate (off + (entryBytes deflate off ents r).length)
+        (⟨r.name, off, entryBytes deflate off ents r⟩ :: ents) rs).1 ++ trailer ≠ [] := by
+      intro h; exact htr (List.append_eq_nil_iff.mp h).2
+    rw [parseEntry_entryBytes deflate inflate hz hs off ents r _ (hwf r List.mem_cons_self) hinv hrest]
+    simp only
+    have hlen : 0 < (entryBytes deflate off ents r).length := List.length_pos_iff.mpr hb
+    rw [ih (off + (entryBytes deflate off ents r).length) total _
+      (fun x hx => hwf x (List.mem_cons_of_mem _ hx))
+      (by
+        intro e he
+        rcases List.mem_cons.mp he with h | h
+        · subst h; simp only; omega
+        · have := hinv e h; omega)
+      (by simp only [List.length_append] at htot ⊢; omega)]
+    have hoff : total - (entryBytes deflate off ents r ++ ((writeRecs deflate
+        (off + (entryBytes deflate off ents r).length)
+        (⟨r.name, off, entryBytes deflate off ents r⟩ :: ents) rs).1 ++ trailer)).length = off := by
+      simp only [List.length_append] at htot ⊢; omega
+    rw [hoff]
+
+/-- Random access: the final pack, read at the offset of any record, parses to what the writer meant. -/
+theorem parseAt_layout (deflate : Bytes → Bytes) (inflate : Bytes → Option (Bytes × Bytes))
+    (hz : ZlibOk deflate inflate) (hs : Nat) (trailer : Bytes) (htr : trailer ≠ []) :
+    ∀ (recs : List Rec) (off : Nat) (ents : List WEntry) (pre : Bytes),
+      pre.length = off → (∀ r ∈ recs, wfRec hs r = true) → (∀ e ∈ ents, e.offset < off) →
+      ∀ p ∈ layoutRecs deflate off ents recs,
+        parseAt inflate hs (pre ++ ((writeRecs deflate off ents recs).1 ++ trailer)) p.1 = .ok p.2 := by
+  intro recs
+  induction recs with
+  | nil => intro off ents pre _ _ _ p hp; simp [layoutRecs] at hp
+  | cons r rs ih =>
+    intro off ents pre hpre hwf hinv p hp
+    subst hpre
+    have hb := entryBytes_ne_nil deflate pre.length ents r
+    have hlen : 0 < (entryBytes deflate pre.length ents r).length := List.length_pos_iff.mpr hb
+    simp only [layoutRecs, List.mem_cons] at hp
+    rw [writeRecs_fst_cons, List.append_assoc]
+    have hrest : (writeRecs deflate (pre.length + (entryBytes deflate pre.length ents r).length)
+        (⟨r.name, pre.length, entryBytes deflate pre.length ents r⟩ :: ents) rs).1 ++ trailer ≠ [] := by
+      intro h; exact htr (List.append_eq_nil_iff.mp h).2
+    rcases hp with h | h
+    · subst h
+      unfold parseAt
+      simp only
+      rw [List.drop_left,
+        parseEntry_entryBytes deflate inflate hz hs pre.length ents r _ (hwf r List.mem_cons_self) hinv hrest]
+    · have := ih (pre.length + (entryBytes deflate pre.length ents r).length) _
+        (pre ++ entryBytes deflate pre.length ents r)
+        (by simp) (fun x hx => hwf x (List.mem_cons_of_mem _ hx))
+        (by
+          intro e he
+          rcases List.mem_cons.mp he with h' | h'
+          · subst h'; simp only; omega
+          · have := hinv e h'; omega) p h
+      rw [List.append_assoc] at this
+      exact this
+
+/-! ### pack header -/
+
+theorem beBytes_length' (k n : Nat) : (beBytes k n).length = k := by
+  induction k generalizing n with
+  | zero => rfl
+  | succ k ih => simp [beBytes, ih]
+
+theorem packHeader_length (n : Nat) : (packHeader n).length = 12 := by
+  simp [packHeader, Gen.Pack.packMagic, beBytes_length']
+
+/-- Every entry the writer remembers is exactly the byte range `[offset, offset + len)` of the output. -/
+theorem writeRecs_ranges (deflate : Bytes → Bytes) : ∀ (recs : List Rec) (off : Nat) (ents : List WEntry) (pre suf : Bytes),
+    pre.length = off →
+    ∀ e ∈ (writeRecs deflate off ents recs).2,
+      e ∈ ents ∨ slice (pre ++ ((writeRecs deflate off ents recs).1 ++ suf)) e.offset e.raw.length = e.raw := by
+  intro recs
+  induction recs with
+  | nil => intro off ents pre suf _ e he; exact Or.inl he
+  | cons r rs ih =>
+    intro off ents pre suf hpre e he
+    subst hpre
+    rw [writeRecs_snd_cons] at he
+    rw [writeRecs_fst_cons, List.append_assoc]
+    have := ih (pre.length + (entryBytes deflate pre.length ents r).length)
+      (⟨r.name, pre.length, entryBytes deflate pre.length ents r⟩ :: ents)
+      (pre ++ entryBytes deflate pre.length ents r) suf (by simp) e he
+    rcases this with h | h
+    · rcases List.mem_cons.mp h with h' | h'
+      · right
+        subst h'
+        simp only [slice]
+        rw [List.drop_left]
+        simp
+      · exact Or.inl h'
+    · right
+      rw [List.append_assoc] at h
+      exact h
+
+/-! ### random access: resolving OFS chains on the written pack -/
+
+/-- Entries (newest first) aligned with resolved objects (newest first): same names, and the entry at
+depth `k` from the oldest resolves with any fuel `> k`. -/
+def Aligned (res : Nat → Nat → Except Err (Nat × Bytes)) : List WEntry → List (Bytes × Nat × Bytes) → Prop
+  | [], [] => True
+  | e :: es, a :: as =>
+    e.name = a.1 ∧ 12 ≤ e.offset ∧ (∀ f, es.length + 1 ≤ f → res f e.offset = .ok (a.2.1, a.2.2)) ∧ Aligned res es as
+  | _, _ => False
+
+theorem aligned_find (res : Nat → Nat → Except Err (Nat × Bytes)) (b : Bytes) :
+    ∀ (ents : List WEntry) (acc : List (Bytes × Nat × Bytes)) (a : Bytes × Nat × Bytes),
+      Aligned res ents acc → acc.find? (fun a => a.1 = b) = some a →
+      ∃ o, lookupOff ents b = some o ∧ 12 ≤ o ∧ ∀ f, ents.length ≤ f → res f o = .ok (a.2.1, a.2.2) := by
+  intro ents
+  induction ents with
+  | nil =>
+    intro acc a hal hf
+    cases acc with
+    | nil => simp at hf
+    | cons _ _ => simp [Aligned] at hal
+  | cons e es ih =>
+    intro acc a hal hf
+    cases acc with
+    | nil => simp [Aligned] at hal
+    | cons a0 as =>
+      obtain ⟨hn, h12, hres, hrest⟩ := hal
+      rw [List.find?_cons] at hf
+      by_cases hb : a0.1 = b
+      · simp only [hb, decide_true] at hf
+        cases hf
+        refine ⟨e.offset, ?_, h12, ?_⟩
+        · unfold lookupOff
+          rw [List.find?_cons]
+          simp [hn, hb]
+        · intro f hf'; exact hres f (by simpa using hf')
+      · simp only [hb, decide_false] at hf
+        obtain ⟨o, h1, h2, h3⟩ := ih as a hrest hf
+        refine ⟨o, ?_, h2, ?_⟩
+        · unfold lookupOff at h1 ⊢
+          rw [List.find?_cons]
+          have : decide (e.name = b) = false := decide_eq_false (by rw [hn]; exact hb)
+          rw [this]
+          exact h1
+        · intro f hf'; exact h3 f (by simp at hf'; omega)
+
+theorem writeRecs_snd_length (deflate : Bytes → Bytes) : ∀ (recs : List Rec) (off : Nat) (ents : List WEntry),
+    (writeRecs deflate off ents recs).2.length = ents.length + recs.length := by
+  intro recs
+  induction recs with
+  | nil => intro off ents; simp [writeRecs]
+  | cons r rs ih => intro off ents; rw [writeRecs_snd_cons, ih]; simp; omega
+
+theorem resolve_layout (deflate : Bytes → Bytes) (inflate : Bytes → Option (Bytes × Bytes)) (hs : Nat)
+    (lookup : Bytes → Except Err Nat) (pack : Bytes) :
+    ∀ (recs : List Rec) (off : Nat) (ents : List WEntry) (acc final : List (Bytes × Nat × Bytes)),
+      (∀ p ∈ layoutRecs deflate off ents recs, parseAt inflate hs pack p.1 = .ok p.2) →
+      Aligned (resolveAt inflate hs lookup pack) ents acc → 12 ≤ off → (∀ e ∈ ents, e.offset < off) →
+      resolveRecs acc recs = .ok final →
+      Aligned (resolveAt inflate hs lookup pack) (writeRecs deflate off ents recs).2 final := by
+  intro recs
+  induction recs with
+  | nil =>
+    intro off ents acc final _ hal _ _ hres
+    simp only [resolveRecs] at hres
+    cases hres
+    exact hal
+  | cons r rs ih =>
+    intro off ents acc final hparse hal h12 hinv hres
+    have hhead : parseAt inflate hs pack off = .ok (entryOf off ents r) :=
+      hparse (off, entryOf off ents r) (by simp [layoutRecs])
+    have htail : ∀ p ∈ layoutRecs deflate (off + (entryBytes deflate off ents r).length)
+        (⟨r.name, off, entryBytes deflate off ents r⟩ :: ents) rs, parseAt inflate hs pack p.1 = .ok p.2 :=
+      fun p hp => hparse p (by simp only [layoutRecs, List.mem_cons]; exact Or.inr hp)
+    have hinv' : ∀ e ∈ (⟨r.name, off, entryBytes deflate off ents r⟩ :: ents : List WEntry),
+        e.offset < off + (entryBytes deflate off ents r).length := by
+      have hlen : 0 < (entryBytes deflate off ents r).length :=
+        List.length_pos_iff.mpr (entryBytes_ne_nil deflate off ents r)
+      intro e he
+      rcases List.mem_cons.mp he with h | h
+      · subst h; simp only; omega
+      · have := hinv e h; omega
+    have h12n : ¬ off < Gen.Pack.packHeaderSize := by simp only [Gen.Pack.packHeaderSize]; omega
+    rw [writeRecs_snd_cons]
+    simp only [resolveRecs] at hres
+    cases hb : r.base with
+    | none =>
+      rw [hb] at hres
+      simp only at hres
+      apply ih _ _ _ final htail _ (by omega) hinv' hres
+      refine ⟨rfl, h12, ?_, hal⟩
+      intro f hf
+      cases f with
+      | zero => omega
+      | succ f =>
+        simp only [resolveAt, h12n, if_false, hhead, entryOf, hb]
+    | some bname =>
+      rw [hb] at hres
+      simp only at hres
+      cases hfind : acc.find? (fun a => a.1 = bname) with
+      | none => rw [hfind] at hres; cases hres
+      | some a =>
+        rw [hfind] at hres
+        simp only at hres
+        cases hap : Delta.applyDelta a.2.2 r.data with
+        | error x => rw [hap] at hres; cases hres
+        | ok out =>
+          rw [hap] at hres
+          simp only at hres
+          obtain ⟨o, hlo, ho12, hor⟩ := aligned_find _ bname ents acc a hal hfind
+          have holt := lookupOff_lt hinv hlo
+          apply ih _ _ _ final htail _ (by omega) hinv' hres
+          refine ⟨rfl, h12, ?_, hal⟩
+          intro f hf
+          cases f with
+          | zero => omega
+          | succ f =>
+            have hd : ¬ (off - o > off) := by omega
+            have hoo : off - (off - o) = o := by omega
+            simp only [resolveAt, h12n, if_false, hhead, entryOf, hb, hlo, hd, hoo,
+              hor f (by simp at hf; omega), hap]
+
+theorem aligned_forall₂ (res : Nat → Nat → Except Err (Nat × Bytes)) (N : Nat) :
+    ∀ (ents : List WEntry) (acc : List (Bytes × Nat × Bytes)), Aligned res ents acc → ents.length ≤ N →
+      List.Forall₂ (fun e a => e.name = a.1 ∧ res N e.offset = .ok (a.2.1, a.2.2)) ents acc := by
+  intro ents
+  induction ents with
+  | nil => intro acc h _; cases acc with | nil => exact .nil | cons _ _ => simp [Aligned] at h
+  | cons e es ih =>
+    intro acc h hN
+    cases acc with
+    | nil => simp [Aligned] at h
+    | cons a as =>
+      obtain ⟨h1, _, h3, h4⟩ := h
+      exact .cons ⟨h1, h3 N (by simpa using hN)⟩ (ih as h4 (by simp at hN; omega))
 
 end Dulwich.Pack
